@@ -33,6 +33,17 @@ func (w *World) k8sShards() ([]*shard.Shard, error) {
 	objs := []runtime.Object{&appsv1.StatefulSet{ObjectMeta: metav1.ObjectMeta{Name: k8sSet, Namespace: k8sNS, Labels: map[string]string{"kvass": "shards"}},
 		Spec:   appsv1.StatefulSetSpec{Replicas: &r32, Selector: &metav1.LabelSelector{MatchLabels: map[string]string{"app": k8sSet}}},
 		Status: appsv1.StatefulSetStatus{Replicas: r32, UpdatedReplicas: r32, ReadyReplicas: r32}}}
+	if w.Spec.K8sDecoys {
+		// two more StatefulSets of the same selector (other replicas of an HA layout), one sorting before and one
+		// after ours, each with one ready pod nobody serves
+		for i, name := range []string{"a-" + k8sSet, k8sSet + "-z"} {
+			one := int32(1)
+			objs = append(objs, &appsv1.StatefulSet{ObjectMeta: metav1.ObjectMeta{Name: name, Namespace: k8sNS, Labels: map[string]string{"kvass": "shards"}},
+				Spec:   appsv1.StatefulSetSpec{Replicas: &one, Selector: &metav1.LabelSelector{MatchLabels: map[string]string{"app": name}}},
+				Status: appsv1.StatefulSetStatus{Replicas: 1, UpdatedReplicas: 1, ReadyReplicas: 1}},
+				&corev1.Pod{ObjectMeta: metav1.ObjectMeta{Name: name + "-0", Namespace: k8sNS, Labels: map[string]string{"app": name}}, Status: corev1.PodStatus{PodIP: fmt.Sprintf("10.8.0.%d", i+1)}})
+		}
+	}
 	for _, ord := range rand.Perm(n) {
 		nd := w.nodes[ord]
 		p := &corev1.Pod{ObjectMeta: metav1.ObjectMeta{Name: fmt.Sprintf("%s-%d", k8sSet, ord), Namespace: k8sNS, Labels: map[string]string{"app": k8sSet}}}
@@ -50,13 +61,43 @@ func (w *World) k8sShards() ([]*shard.Shard, error) {
 	if err != nil {
 		return nil, err
 	}
-	if len(mgrs) != 1 {
-		return nil, fmt.Errorf("harness: %d replicas from one up-to-date StatefulSet", len(mgrs))
+	want := 1
+	if w.Spec.K8sDecoys {
+		want = 3
 	}
-	w.k8sMgr = mgrs[0]
-	shs, err := w.k8sMgr.Shards()
-	if err != nil {
-		return nil, err
+	if len(mgrs) != want {
+		return nil, fmt.Errorf("harness: %d replicas from %d up-to-date StatefulSets", len(mgrs), want)
+	}
+	// ours is the manager that lists the pods prom-<ordinal>; the decoys' shard objects are never contacted
+	var shs []*shard.Shard
+	w.k8sMgr = nil
+	for _, m := range mgrs {
+		l, err := m.Shards()
+		if err != nil {
+			return nil, err
+		}
+		ours := len(l) == n
+		for _, sh := range l {
+			var ord int
+			if k, err := fmt.Sscanf(sh.ID, k8sSet+"-%d", &ord); err != nil || k != 1 || sh.ID != fmt.Sprintf("%s-%d", k8sSet, ord) {
+				ours = false
+			}
+			sh.APIGet = func(string, interface{}) error {
+				return fmt.Errorf("harness: a shard of another StatefulSet is not served here")
+			}
+			sh.APIPost = func(string, interface{}, interface{}) error {
+				return fmt.Errorf("harness: a shard of another StatefulSet is not served here")
+			}
+		}
+		if ours && w.k8sMgr == nil {
+			w.k8sMgr, shs = m, l
+		}
+	}
+	if w.k8sMgr == nil {
+		w.mu.Lock()
+		w.K8sNotListed++
+		w.mu.Unlock()
+		return nil, fmt.Errorf("no shard manager lists the pods of StatefulSet %s", k8sSet)
 	}
 	w.mu.Lock()
 	w.k8sListings++
